@@ -57,6 +57,18 @@ func c10Body(ops []string) func(x *sched.X) {
 				vs = append(vs, w.Craft(M, w.Contract("sselfc", M, A, []byte("d")), tip.Hash, tip.Hash, tip.Weight+1))
 			case "stream+genesis-issued":
 				vs = append(vs, w.Craft(M, w.Contract("sgen", G, A, []byte("d")), tip.Hash, tip.Hash, tip.Weight+1))
+			case "stream+self-sealed-root":
+				// the rule-breaking vertex names no parents at all: it becomes a second root next to the genesis vertex
+				vs = append(vs, w.Craft(M, w.Tx("sselfr", M, A, 1, 0), [32]byte{}, [32]byte{}, tip.Weight+1))
+			case "stream+self-sealed-half-root":
+				// no left parent, right parent on the tip: LoadDag's edge loop stops at the zero hash, again a root
+				vs = append(vs, w.Craft(M, w.Tx("sselfh", M, A, 1, 0), [32]byte{}, tip.Hash, tip.Weight+1))
+			case "stream+self-sealed-contract-root":
+				vs = append(vs, w.Craft(M, w.Contract("sselfcr", M, A, []byte("d")), [32]byte{}, [32]byte{}, tip.Weight+1))
+			case "stream+genesis-issued-root":
+				vs = append(vs, w.Craft(M, w.Contract("sgenr", G, A, []byte("d")), [32]byte{}, [32]byte{}, tip.Weight+1))
+			case "stream+empty-root":
+				vs = append(vs, w.Craft(M, w.Tx("semptyr", R, A, 0, 0), [32]byte{}, [32]byte{}, tip.Weight+1))
 			case "stream+empty":
 				vs = append(vs, w.Craft(M, w.Tx("sempty", R, A, 0, 0), tip.Hash, tip.Hash, tip.Weight+1))
 			default:
@@ -159,6 +171,11 @@ func c10Scenarios() map[string]*sched.Scenario {
 	add("sync-of-stream-with-self-sealed-contract", "stream+self-sealed-contract")
 	add("sync-of-stream-with-genesis-issued-vertex", "stream+genesis-issued")
 	add("sync-of-stream-with-empty-transaction", "stream+empty")
+	add("sync-of-stream-with-self-sealed-second-root", "stream+self-sealed-root")
+	add("sync-of-stream-with-self-sealed-half-root", "stream+self-sealed-half-root")
+	add("sync-of-stream-with-self-sealed-contract-root", "stream+self-sealed-contract-root")
+	add("sync-of-stream-with-genesis-issued-second-root", "stream+genesis-issued-root")
+	add("sync-of-stream-with-empty-second-root", "stream+empty-root")
 	return m
 }
 
